@@ -1,8 +1,12 @@
 package main
 
 import (
+	"bytes"
+	"encoding/binary"
+	"encoding/gob"
 	"encoding/hex"
 	"fmt"
+	"math/bits"
 	"math/rand"
 	"strconv"
 	"strings"
@@ -743,7 +747,7 @@ func stallSummary(dump string) string {
 }
 
 func checkC13(r *verdict.Run) {
-	r.Rule = "each hostile input (raw byte string, generated command, random MULTI..EXEC sequence, and every command token of the SUT in four minimal argument shapes queued alone inside MULTI..EXEC) is sent on its own connection; plus well-formed commands that arrive in two segments or need several reads as the first input of a connection; plus connection churn (24 goroutines connect, send a fragment or nothing and close or reset, against one emulator, while a steady client sends PING) to a live emulator after a fixed key setup; " +
+	r.Rule = "each hostile input (raw byte string, generated command, random MULTI..EXEC sequence, and every command token of the SUT in four minimal argument shapes queued alone inside MULTI..EXEC) is sent on its own connection; plus RESTORE payloads crafted by a client that knows the format (valid checksum; every type byte x empty / one-element / wrong-type / truncated serializations x exact, short and absurd declared lengths), each followed by the read, random-pick, pop and write commands of every type on the restored key; plus well-formed commands that arrive in two segments or need several reads as the first input of a connection; plus connection churn (24 goroutines connect, send a fragment or nothing and close or reset, against one emulator, while a steady client sends PING) to a live emulator after a fixed key setup; " +
 		"monitors: process exit status, canary SET/GET on another connection (3 s watchdog), strict framing of replies, exactly one reply per well-formed command (sentinel ECHO). " +
 		"distinct = (input kind, command or mutation label, outcome class)"
 	// discover the command list from the SUT
@@ -758,6 +762,7 @@ func checkC13(r *verdict.Run) {
 	inputs = append(inputs, c13SeqInputs(rng, append(append([]hostileInput{}, tmpl...), cmds...), tierPick(r, 500, 20000))...)
 	inputs = append(inputs, c13MultiEach(names)...)
 	inputs = append(inputs, c13Fragmented()...)
+	inputs = append(inputs, c13CraftedPayloads()...)
 	rng.Shuffle(len(inputs), func(i, j int) { inputs[i], inputs[j] = inputs[j], inputs[i] })
 	r.Set("inputs_raw_cmd_seq", fmt.Sprintf("%d inputs over %d command tokens", len(inputs), len(names)))
 	for i := 0; i < 4 && i < len(inputs); i++ {
@@ -904,4 +909,59 @@ func c13CommandNames(r *verdict.Run) []string {
 	names = append(names, "nosuchcommand", "", "get\r\nx", "object", "zadd", "publish", "eval")
 	r.Set("sut_commands", len(v.Elems))
 	return names
+}
+
+// c13CraftedPayloads: RESTORE takes bytes that only DUMP is supposed to produce, but a client can produce them too
+// (the checksum is no secret). Every payload below is well-formed on the outside: version byte, a type byte, a
+// declared length, a body, a valid checksum. Whatever RESTORE makes of it, the commands that follow on that key
+// must all be answered.
+func c13CraftedPayloads() []hostileInput {
+	sum := func(b []byte) []byte {
+		var c uint64
+		for _, x := range b {
+			c = bits.RotateLeft64(c, 10) ^ uint64(x)
+		}
+		out := make([]byte, 8)
+		binary.BigEndian.PutUint64(out, c)
+		return out
+	}
+	enc := func(v any) []byte {
+		var buf bytes.Buffer
+		gob.NewEncoder(&buf).Encode(v)
+		return buf.Bytes()
+	}
+	bodies := map[string][]byte{
+		"nothing":          nil,
+		"empty-set-table":  enc(map[string]struct{}{}),
+		"empty-hash-table": enc(map[string]string{}),
+		"empty-list":       enc([][]byte{}),
+		"one-member-set":   enc(map[string]struct{}{"m": {}}),
+		"one-field-hash":   enc(map[string]string{"f": "v"}),
+		"one-element-list": enc([][]byte{[]byte("e")}),
+		"list-of-nil":      enc([][]byte{nil, nil}),
+		"empty-names":      enc(map[string]string{"": ""}),
+		"a-number":         enc(int64(42)),
+		"a-string":         enc("text"),
+		"plain-bytes":      []byte("hello"),
+		"truncated-gob":    enc(map[string]string{"field": "value"})[:9],
+		"two-values":       append(enc(map[string]struct{}{"a": {}}), enc(map[string]struct{}{})...),
+	}
+	probes := [][]string{{"TYPE", "kd"}, {"EXISTS", "kd"}, {"SRANDMEMBER", "kd"}, {"SRANDMEMBER", "kd", "-3"}, {"SRANDMEMBER", "kd", "2"}, {"SPOP", "kd"}, {"SMEMBERS", "kd"}, {"SCARD", "kd"}, {"SINTER", "kd", "kset"},
+		{"HRANDFIELD", "kd"}, {"HRANDFIELD", "kd", "-3", "WITHVALUES"}, {"HGETALL", "kd"}, {"HLEN", "kd"}, {"LPOP", "kd"}, {"RPOP", "kd"}, {"LRANGE", "kd", "0", "-1"}, {"LLEN", "kd"}, {"LINDEX", "kd", "-1"},
+		{"GET", "kd"}, {"STRLEN", "kd"}, {"APPEND", "kd", "x"}, {"SADD", "kd", "n"}, {"HSET", "kd", "g", "w"}, {"RPUSH", "kd", "z"}, {"SORT", "kd", "ALPHA"}, {"SCAN", "0"}, {"RANDOMKEY"}, {"DUMP", "kd"}, {"COPY", "kd", "kd2"}, {"RENAME", "kd", "kd3"}, {"DEL", "kd", "kd2", "kd3"}}
+	var out []hostileInput
+	for name, body := range bodies {
+		for _, typ := range []byte{0, 1, 2, 4, 8, 16, 3, 12, 255} {
+			for _, declared := range []int{len(body) + 1, 0, 1, len(body), len(body) + 2, 1 << 30, -1} {
+				p := []byte{1, typ, 0, 0, 0, 0}
+				binary.BigEndian.PutUint32(p[2:], uint32(declared))
+				p = append(p, body...)
+				p = append(p, sum(p)...)
+				cmds := [][]string{{"RESTORE", "kd", "0", string(p), "REPLACE"}}
+				cmds = append(cmds, probes...)
+				out = append(out, hostileInput{kind: "seq", cmds: cmds, label: "restore-crafted/" + name})
+			}
+		}
+	}
+	return out
 }
